@@ -105,6 +105,10 @@ Fine(a) ==
                       \o Concat([i \in DOMAIN a[3] |-> Block(a[3][i], 1, 1, <<>>, 1, 1, 1)]),
              opts |-> Opts0, tag |-> <<"deco", a[1], a[2], deco, a[3]>>] : deco \in [1..(a[1] + 1) -> DecoSeqs]}
            \* data made of zeros (every cell, the first row, the first column): "nothing there" and "all zero" are different things
+           \* a declared TAB delimiter (the concretiser then uses single, doubled, leading and trailing tabs)
+           \cup {[text |-> VBlock("NO", "TAB") \o WBlock("null1") \o CBlock(a[2]) \o ABlock(a[1], a[2], NoDeco(a[1]), Fin)
+                           \o Concat([i \in DOMAIN a[3] |-> Block(a[3][i], 1, 1, <<>>, 1, 1, 1)]),
+                  opts |-> Opts0, tag |-> <<"zero", a[1], a[2], "tabdlm", a[3]>>]}
            \cup {[text |-> VBlock("NO", "SPACE") \o WBlock("null1") \o CBlock(a[2])
                            \o ABlock(a[1], a[2], NoDeco(a[1]), LAMBDA i, j : IF z = "all" \/ (z = "row1" /\ i = 1) \/ (z = "col1" /\ j = 1)
                                                                             THEN "ZERO"
